@@ -93,8 +93,79 @@ def main():
         ctx.cleanup()
 
 
-if __name__ == "__main__":
-    rc = main()
+# properties whose statement makes "the process stops responding" itself a violation (the daemon stops serving, a call never
+# comes back); for the others a frozen interpreter is a failure of the machinery
+FREEZE_IS_A_VERDICT = {"C03", "C05", "C07", "C10", "C11", "C17", "C18"}
+FREEZE_AFTER = 300.0        # seconds without a sign of life from a process that is neither finished nor waiting for TLC
+
+
+def supervised():
+    """the check runs in a child process that gives a sign of life every two seconds from a thread of its own.  A piece of C code
+    that holds the interpreter for good (a regular expression that backtracks for ever, say) silences that thread too, and nothing
+    inside the process can report it; the parent does."""
+    import select
+    import threading
+    import time
+    if os.environ.get("VERIF_NO_SUPERVISOR") or not hasattr(os, "fork"):
+        return main()
+    prop = next((a for a in sys.argv[1:] if not a.startswith("-")), "?").upper()
+    marker = os.path.join(os.environ.get("TMPDIR", "/tmp"), "verif_marker_%d" % os.getpid())
+    os.environ["VERIF_MARKER_FILE"] = marker
+    rfd, wfd = os.pipe()
     sys.stdout.flush()
     sys.stderr.flush()
-    os._exit(rc)
+    pid = os.fork()
+    if pid == 0:
+        os.close(rfd)
+
+        def beat():
+            while True:
+                try:
+                    os.write(wfd, b".")
+                except OSError:
+                    return
+                time.sleep(2.0)
+        threading.Thread(target=beat, daemon=True, name="sign-of-life").start()
+        return main()
+    os.close(wfd)
+    last = time.time()
+    try:
+        while True:
+            ready, _, _ = select.select([rfd], [], [], 5.0)
+            if ready:
+                if os.read(rfd, 4096):
+                    last = time.time()
+            done, status = os.waitpid(pid, os.WNOHANG)
+            if done:
+                return os.waitstatus_to_exitcode(status) if status else 0
+            if time.time() - last > FREEZE_AFTER:
+                os.kill(pid, 9)
+                os.waitpid(pid, 0)
+                what = ""
+                try:
+                    what = open(marker).read()[:300]
+                except OSError:
+                    pass
+                if prop in FREEZE_IS_A_VERDICT and "--replay" not in sys.argv:
+                    rdir = os.path.join(VERIF, "evidence", "replays") if "--repo" not in sys.argv and "--no-evidence" not in sys.argv else "/tmp"
+                    os.makedirs(rdir, exist_ok=True)
+                    path = os.path.join(rdir, "%s_frozen.json" % prop)
+                    with open(path, "w") as f:
+                        f.write('{"property": "%s", "signature": "%s.Hang [the process stopped responding]", "doing": %r}\n' % (prop, prop, what))
+                    print("VIOLATION property=%s replay=%s" % (prop, path))
+                    print("  signature: %s.Hang [the process stopped responding for %d s; it was busy with: %s]" % (prop, FREEZE_AFTER, what))
+                    return 1
+                print("machinery failure: the check process stopped responding for %d s (%s)" % (FREEZE_AFTER, what))
+                return 2
+    finally:
+        try:
+            os.unlink(marker)
+        except OSError:
+            pass
+
+
+if __name__ == "__main__":
+    rc = supervised()
+    sys.stdout.flush()
+    sys.stderr.flush()
+    os._exit(rc if isinstance(rc, int) and 0 <= rc <= 255 else 2)
